@@ -114,6 +114,90 @@ MUTANTS = [
         [(TAG, "    german_local_datetime = date_time.astimezone(berlin)", "    german_local_datetime = date_time.astimezone(berlin)\n    if date_time.year < 2000:\n        from datetime import timezone as _tz, timedelta as _td\n        german_local_datetime = date_time.astimezone(_tz(_td(hours=1)))")],
         ["C20"],
     ),
+    # ---- C12 ---------------------------------------------------------------------------------------------------------
+    (
+        "c12_rc_results_in_completion_order",
+        [(RCEV, """        results = await asyncio.gather(*tasks)
+
+        result = dict(zip(condition_keys, results))
+        return result
+""", """        results = []
+
+        async def _collect(task):
+            results.append(await task)
+
+        await asyncio.gather(*[_collect(task) for task in tasks])
+
+        result = dict(zip(condition_keys, results))
+        return result
+""")],
+        ["C12"],
+    ),
+    (
+        "c12_fc_results_in_completion_order",
+        [(FCEV, """        results: List[EvaluatedFormatConstraint] = await asyncio.gather(*tasks)
+""", """        results: List[EvaluatedFormatConstraint] = []
+
+        async def _collect(task):
+            results.append(await task)
+
+        await asyncio.gather(*[_collect(task) for task in tasks])
+""")],
+        ["C12"],
+    ),
+    (
+        "c12_hints_sorted_keys",
+        [(HP, "        for key, value in zip(condition_keys, results):", "        for key, value in zip(sorted(condition_keys), results):")],
+        ["C12"],
+    ),
+    (
+        "c12_gather_if_necessary_completion_order",
+        [(UTIL, """    awaited_results = await asyncio.gather(*[x for x in results_and_awaitable_results if inspect.isawaitable(x)])
+""", """    awaited_results = []
+
+    async def _collect(awaitable):
+        awaited_results.append(await awaitable)
+
+    await asyncio.gather(*[_collect(x) for x in results_and_awaitable_results if inspect.isawaitable(x)])
+""")],
+        ["C12", "C09"],
+    ),
+    (
+        "c12_packages_in_completion_order",
+        [(RES, """    sub_results = await asyncio.gather(*result.scan_values(asyncio.iscoroutine))
+""", """    sub_results = []
+
+    async def _collect(coro):
+        sub_results.append(await coro)
+
+    await asyncio.gather(*[_collect(coro) for coro in result.scan_values(asyncio.iscoroutine)])
+""")],
+        ["C12", "C10"],
+    ),
+    (
+        "c12_validity_setter_outside_task",
+        [(CE, """        async def evaluate_with_cer(cer: ContentEvaluationResult):
+            content_evaluation_result_setter(cer)
+            try:""", """        content_evaluation_result_setter(content_evaluation_result)
+
+        async def evaluate_with_cer(cer: ContentEvaluationResult):
+            try:""")],
+        ["C12"],
+    ),
+    # ---- regression: the defects repaired by the fix: commits, reverted one by one -------------------------------------
+    ("fixrevert_d1_visit_error", [(RES, """        try:
+            expression_tree = AhbExpressionResolverTransformer().transform(expression_tree)
+        except VisitError as visit_err:
+            # lark wraps the SyntaxError of a malformed condition expression inside the ahb expression
+            raise visit_err.orig_exc
+""", """        expression_tree = AhbExpressionResolverTransformer().transform(expression_tree)
+""")], ["C02"]),
+    ("fixrevert_d2_lowercase_prefix", [(AEE, "return PrefixOperator(prefix_operator.value.upper())", "return PrefixOperator(prefix_operator.value)")], ["C09"]),
+    ("fixrevert_d3_shallow_copy", [(UTIL, "        return copy.deepcopy(tree_result)", "        return tree_result.copy()")], ["C11"]),
+    ("fixrevert_d9_unicode_modal_mark", [(AEP, "MODAL_MARK: /(?a:M(uss)?|S(oll)?|K(ann)?)/i", "MODAL_MARK: /M(uss)?|S(oll)?|K(ann)?/i")], ["C02"]),
+    ("fixrevert_d10_unicode_repeatability", [(CEP, r"REPEATABILITY: /[0-9]+\.{2}[1-9][0-9]*/", r"REPEATABILITY: /\d+\.{2}[1-9]\d*/")], ["C02"]),
+    ("fixrevert_d7_931_midnight", [(TAG, "    if utc_offset == timedelta(0):", "    if utc_offset == timedelta(0) and date_time.time() == time(0, 0, 0):")], ["C20"]),
+    ("fixrevert_d8_overflow", [(TAG, "    except OverflowError as overflow_error:", "    except ZeroDivisionError as overflow_error:")], ["C20"]),
 ]
 
 
